@@ -13,7 +13,7 @@ exit 0: every obligation discharged (UNSAT within the bounds, twin reachable)
 exit 1: a counterexample reproduced on the real build  -> VIOLATION line
 exit 2: inconclusive (timeout, unknown construct, non-reproducing counterexample...)
 """
-import os, sys, json, re, time, shutil, hashlib, signal, subprocess, tempfile, resource, threading
+import shlex, os, sys, json, re, time, shutil, hashlib, signal, subprocess, tempfile, resource, threading
 from concurrent.futures import ThreadPoolExecutor, as_completed
 
 VERIF = os.path.dirname(os.path.dirname(os.path.abspath(__file__)))
@@ -67,6 +67,11 @@ class LL:
         self.export = tuple(export); self.rename = dict(rename or {}); self.cflags = tuple(cflags)
     def key(self): return ('L', self.path, self.lang, self.opt, self.flags, self.ct,
                            tuple(sorted(self.defs.items())), self.prefix, self.export, tuple(sorted(self.rename.items())), self.cflags)
+
+
+def qflags(d):
+    """-D flags quoted for a shell script"""
+    return [shlex.quote(x) for x in dflags(d)]
 
 
 def dflags(d):
@@ -326,7 +331,7 @@ class Runner:
         objs = []
         for k, u in enumerate(q.units):
             dd = dict(cfg_defs(q.cfg)); dd.update(u.defs)
-            script.append('gcc -std=%s $OPT -w %s %s %s -c %s -o $T/u%d.o || exit 99' % (q.std, ' '.join(san), inc, ' '.join(dflags(dd)), self.src_path(u.path), k))
+            script.append('gcc -std=%s $OPT -w %s %s %s -c %s -o $T/u%d.o || exit 99' % (q.std, ' '.join(san), inc, ' '.join(qflags(dd)), self.src_path(u.path), k))
             objs.append('$T/u%d.o' % k)
         for k, l in enumerate(q.ll):
             if q.replay == 'ir':
@@ -352,15 +357,15 @@ class Runner:
             except BuildError:
                 return 'error', 'cannot build shim'
             cc = 'gcc -std=%s' % q.std if l.lang == 'c' else 'g++ -std=c++11 -fno-exceptions -fno-rtti -fpermissive'
-            script.append('%s $OPT -w %s %s %s %s -c $D/shim%d.c -o $T/l%d.o || exit 99' % (cc, ' '.join(san), ' '.join(l.flags), inc, ' '.join(dflags(dd)), k, k))
+            script.append('%s $OPT -w %s %s %s %s -c $D/shim%d.c -o $T/l%d.o || exit 99' % (cc, ' '.join(san), ' '.join(l.flags), inc, ' '.join(qflags(dd)), k, k))
             objs.append('$T/l%d.o' % k)
         hsrc = os.path.join(VERIF, 'harness', q.harness)
-        script.append('gcc -std=%s $OPT -w %s %s -I$D %s -c %s -o $T/h.o || exit 99' % (q.std, ' '.join(san), inc, ' '.join(dflags(d)), hsrc))
+        script.append('gcc -std=%s $OPT -w %s %s -I$D %s -c %s -o $T/h.o || exit 99' % (q.std, ' '.join(san), inc, ' '.join(qflags(d)), hsrc))
         link = 'g++' if any(l.lang != 'c' for l in q.ll) else 'gcc'
         # the rest of the real library, as an archive: members are pulled in only for symbols still undefined
         script.append('rm -f $T/libskinny.a; for f in %s/src/*.c; do b=$(basename $f .c); fl=-msse2; case $b in *vec256) fl=-mavx2;; skinny-internal) fl="-msse2 -mavx2";; esac; '
                       'gcc -std=%s $OPT -w %s $fl %s %s -c $f -o $T/lib_$b.o & done; wait; ar rc $T/libskinny.a $T/lib_*.o'
-                      % (REPO, q.std, ' '.join(san), inc, ' '.join(dflags(cfg_defs(q.cfg)))))
+                      % (REPO, q.std, ' '.join(san), inc, ' '.join(qflags(cfg_defs(q.cfg)))))
         if q.replay == 'ir':
             script.append('gcc -std=gnu99 $OPT -w -c %s -o $T/nd.o || exit 99' % os.path.join(VERIF, 'harness', 'replay_nondet.c'))
             objs.append('$T/nd.o')
